@@ -142,7 +142,7 @@ impl Gen
         for _ in 0..20
         {
             let name = self.g.alphabet[self.rng.gen_range(0..self.g.alphabet.len())].clone();
-            let needs_access = matches!(name.as_str(), "resmut" | "resset" | "resno" | "mut" | "set" | "noreact" | "wadd" | "wrem" | "wrun" | "eadd" | "erem" | "sysevsig");
+            let needs_access = matches!(name.as_str(), "resmut" | "resset" | "resno" | "mut" | "set" | "noreact" | "wadd" | "wrem" | "wrun" | "eadd" | "erem" | "sysevsig" | "smut" | "sset" | "sno");
             if exclusive && needs_access { continue; }
             let op = match name.as_str()
             {
@@ -166,6 +166,12 @@ impl Gen
                 "xdesp" => Op::XDesp(self.ent()),
                 "xdesprec" => Op::XDespRec(self.ent()),
                 "xrm" => Op::XRm(self.ent(), self.ty()),
+                "xbc" => Op::XBc(self.ty(), self.payload()),
+                "xeev" => Op::XEEv(self.ent(), self.ty(), self.payload()),
+                "xsysev" => Op::XSysEv(self.sys(applied), self.payload()),
+                "smut" => Op::SMut(self.ent(), self.ty(), self.val()),
+                "sset" => Op::SSet(self.ent(), self.ty(), self.val()),
+                "sno" => Op::SNo(self.ent(), self.ty(), self.val()),
                 "despsys" => Op::DespSys(self.sys(applied)),
                 "reg" =>
                 {
@@ -256,7 +262,7 @@ impl Gen
             if self.budget == 0 { self.budget = 1; }
             // between trees everything issued has been applied
             let applied = self.once_used.clone();
-            let xops: Vec<String> = self.g.alphabet.iter().filter(|n| matches!(n.as_str(), "xdesp" | "xdesprec" | "xrm")).cloned().collect();
+            let xops: Vec<String> = self.g.alphabet.iter().filter(|n| matches!(n.as_str(), "xdesp" | "xdesprec" | "xrm" | "xbc" | "xeev" | "xsysev")).cloned().collect();
             if !xops.is_empty() && self.rng.gen_range(0..100) < self.g.p_direct
             {
                 let full = std::mem::replace(&mut self.g.alphabet, xops);
